@@ -159,13 +159,23 @@ class XPathMap(XPathFunction):
             items = ', '.join(f'{k!r}:{v!r}' for k, v in self._map.items())
         return f'map{{{items}}}'
 
+    def _get_key(self, token: ta.XPathTokenType,
+                 context: ta.ContextType) -> Optional[ta.AtomicType]:
+        # The key expression is atomized: the atomic value is the key, xs:untypedAtomic included.
+        key = None
+        for k, key in enumerate(token.atomization(context)):
+            if k:
+                msg = "atomized key is a sequence of length greater than one"
+                raise self.error('XPTY0004', msg)
+        return key
+
     def evaluate(self, context: ta.ContextType = None) -> 'XPathMap':
         if self._map is not None:
             return self
         return XPathMap(
             parser=self.parser,
             items=(
-                (k.get_atomized_operand(context), v.evaluate(context))
+                (self._get_key(k, context), v.evaluate(context))
                 for k, v in zip(self._items, self._values)
             )
         )
@@ -175,7 +185,7 @@ class XPathMap(XPathFunction):
         nan_key: Union[bool, float] = False
 
         for key, value in zip(self._items, self._values):
-            k = key.get_atomized_operand(context)
+            k = self._get_key(key, context)
             if k is None:
                 raise self.error('XPTY0004', 'missing key value')
             elif isinstance(k, float) and math.isnan(k):
